@@ -9,6 +9,7 @@ connects, disconnects and severs; the frames of one burst are in flight
 together, handlers pause for seeded durations.  Oracle: the model below."""
 from sim import sio
 from sim.world import make_world
+from sim.choices import derive
 from sim.util import typed_eq, wire_norm, expect_args, gen_value
 from .common import (V, Registry, gen_registry, install_registry, ret_for,
                      SHAPES, ack_key, pkt_key, multiset_diff, trepr,
@@ -146,8 +147,10 @@ def _run(case, cfg, v, reg, shapes, msgpack, w):
             name = args[0]
         shape = shapes.get(name, shapes['other'])
         pause = w.choices.pick('app', PAUSES, 'pause')
-        if cfg.get('raise_p') and w.choices.chance('faults', cfg['raise_p'],
-                                                   8, 'hraise'):
+        if cfg.get('raise_p') and (
+                derive(case['seed'], 'hraise', repr(tok)) % 8 < cfg['raise_p']
+                if cfg.get('raise_by_content') else
+                w.choices.chance('faults', cfg['raise_p'], 8, 'hraise')):
             # fault: the application handler fails; the event still counts
             # as handled once, nothing is acknowledged, and the client's
             # later events are served as usual
